@@ -1,6 +1,8 @@
 package lookups
 
 import (
+	"slices"
+
 	"pgregory.net/rapid"
 
 	"seehuhn.de/go/sfnt/glyph"
@@ -27,6 +29,14 @@ type Nested struct {
 	Alphabet []glyph.ID // bases 1..3, marks 5 and 6
 	NumCtx   int
 	Coherent bool
+	// Inherit is set when the input of a context was built from the pattern
+	// of a lookup it calls.
+	Inherit bool
+	// Ignore is set when a rule set has a second rule without actions.
+	Ignore bool
+	// Patterns lists, for every rule and for the ligature, a glyph sequence
+	// its pattern (backtrack, input, lookahead) matches.
+	Patterns [][]glyph.ID
 }
 
 // GenNested draws a nested lookup list.  The alphabet is small (three base
@@ -43,6 +53,11 @@ func GenNested(t *rapid.T, opt NestedOptions) *Nested {
 		MarkGlyphSets: []coverage.Set{{5: true}, {6: true}},
 	}
 	g := func(label string) glyph.ID { return rapid.SampledFrom(bases).Draw(t, label) }
+	// gm: mostly a base glyph, sometimes a mark - marks are ordinary input
+	// glyphs and ligature components for a lookup whose flags keep them
+	gm := func(label string) glyph.ID {
+		return rapid.SampledFrom([]glyph.ID{1, 2, 3, 1, 2, 3, 1, 2, 3, 5, 6}).Draw(t, label)
+	}
 	type fl struct {
 		f   gtab.LookupFlags
 		mfs uint16
@@ -62,6 +77,7 @@ func GenNested(t *rapid.T, opt NestedOptions) *Nested {
 	res.Coherent = rapid.IntRange(0, 3).Draw(t, "coherent") != 0
 	ll := make(gtab.LookupList, total)
 	firstOf := make([]glyph.ID, total)
+	patOf := make([][]glyph.ID, total) // first glyph and further input glyphs
 
 	// leaves: an expansion, a single substitution, a ligature
 	expFrom := g("expFrom")
@@ -72,29 +88,98 @@ func GenNested(t *rapid.T, opt NestedOptions) *Nested {
 	ll[nCtx] = &gtab.LookupTable{Meta: meta(2, "expFlags"),
 		Subtables: []gtab.Subtable{&gtab.Gsub2_1{Cov: CovTable([]glyph.ID{expFrom}), Repl: [][]glyph.ID{exp}}}}
 	firstOf[nCtx] = expFrom
+	patOf[nCtx] = []glyph.ID{expFrom}
 	sFrom, sTo := g("subFrom"), g("subTo")
 	ll[nCtx+1] = &gtab.LookupTable{Meta: meta(1, "subFlags"),
 		Subtables: []gtab.Subtable{&gtab.Gsub1_2{Cov: CovTable([]glyph.ID{sFrom}), SubstituteGlyphIDs: []glyph.ID{sTo}}}}
 	firstOf[nCtx+1] = sFrom
+	patOf[nCtx+1] = []glyph.ID{sFrom}
 	lFirst := g("ligFirst")
-	ligIn := make([]glyph.ID, rapid.IntRange(1, 2).Draw(t, "ligLen"))
+	ligIn := make([]glyph.ID, rapid.SampledFrom([]int{1, 2, 2}).Draw(t, "ligLen"))
 	for k := range ligIn {
-		ligIn[k] = g("ligIn")
+		ligIn[k] = gm("ligIn")
+	}
+	if rapid.IntRange(0, 3).Draw(t, "ligMarkLast") == 0 {
+		// base + mark ligatures: a caller that ignores the mark has it
+		// behind its last input glyph
+		ligIn[len(ligIn)-1] = rapid.SampledFrom([]glyph.ID{5, 6}).Draw(t, "ligMark")
+	}
+	// the ligature glyph is often the first component again, so that what
+	// applied to the first component still applies to the ligature
+	ligOut := g("ligOut")
+	if rapid.IntRange(0, 2).Draw(t, "ligOutSame") == 0 {
+		ligOut = lFirst
 	}
 	ll[nCtx+2] = &gtab.LookupTable{Meta: meta(4, "ligFlags"),
-		Subtables: []gtab.Subtable{&gtab.Gsub4_1{Cov: CovTable([]glyph.ID{lFirst}), Repl: [][]gtab.Ligature{{{In: ligIn, Out: g("ligOut")}}}}}}
+		Subtables: []gtab.Subtable{&gtab.Gsub4_1{Cov: CovTable([]glyph.ID{lFirst}), Repl: [][]gtab.Ligature{{{In: ligIn, Out: ligOut}}}}}}
 	firstOf[nCtx+2] = lFirst
+	patOf[nCtx+2] = append([]glyph.ID{lFirst}, ligIn...)
+	res.Patterns = append(res.Patterns, append([]glyph.ID{lFirst}, ligIn...))
 
 	// contexts, innermost first, so that the first glyphs of the lookups an
 	// action may call are known
 	for i := nCtx - 1; i >= 0; i-- {
+		ctxFlags := flags("ctxFlags")
+		// kept tells whether the context's own flags let it see glyph x
+		kept := func(x glyph.ID) bool {
+			if x != 5 && x != 6 {
+				return true
+			}
+			switch {
+			case ctxFlags.f&gtab.IgnoreMarks != 0:
+				return false
+			case ctxFlags.f&gtab.UseMarkFilteringSet != 0:
+				return gd.MarkGlyphSets[ctxFlags.mfs][x]
+			}
+			return true
+		}
 		first := g("ctxFirst")
-		firstOf[i] = first
-		nIn := rapid.IntRange(0, 2).Draw(t, "ctxInputLen")
+		nIn := rapid.SampledFrom([]int{0, 1, 1, 2, 2, 3}).Draw(t, "ctxInputLen")
 		input := make([]glyph.ID, nIn)
 		for k := range input {
-			input[k] = g("ctxInput")
+			input[k] = gm("ctxInput")
 		}
+		inherit := -1
+		if res.Coherent && rapid.IntRange(0, 2).Draw(t, "inheritPattern") != 0 {
+			// the input sequence is the pattern of a later lookup, with marks
+			// drawn into the gaps and possibly a tail: whether the callee
+			// matches inside the caller's window is then a question of the
+			// two flag words only
+			cand := []int{total - 1} // the ligature, and any later lookup
+			for j := i + 1; j < total; j++ {
+				cand = append(cand, j)
+			}
+			inherit = rapid.SampledFrom(cand).Draw(t, "inheritFrom")
+			var seq []glyph.ID
+			for k, x := range patOf[inherit] {
+				if k > 0 && rapid.IntRange(0, 2).Draw(t, "inheritGap") == 0 {
+					seq = append(seq, rapid.SampledFrom([]glyph.ID{5, 6}).Draw(t, "inheritGapMark"))
+				}
+				seq = append(seq, x)
+			}
+			// a glyph the context's own flags skip can never be matched as
+			// input: what the callee takes of them lies between (or behind)
+			// the caller's input glyphs
+			seq = slices.DeleteFunc(seq, func(x glyph.ID) bool { return !kept(x) })
+			for len(seq) < 5 && rapid.IntRange(0, 2).Draw(t, "inheritTail") == 0 {
+				seq = append(seq, gm("inheritTailGlyph"))
+			}
+			if len(seq) > 5 {
+				seq = seq[:5]
+			}
+			if len(seq) > 1 && rapid.IntRange(0, 3).Draw(t, "inheritPrefix") == 0 {
+				// only a prefix: the callee reaches beyond the caller's input
+				seq = seq[:rapid.IntRange(1, len(seq)-1).Draw(t, "inheritPrefixLen")]
+			}
+			if res.Gdef.GlyphClass[seq[0]] != gdef.GlyphClassMark {
+				first, input, nIn = seq[0], seq[1:], len(seq)-1
+				res.Inherit = true
+			} else {
+				inherit = -1
+			}
+		}
+		firstOf[i] = first
+		patOf[i] = append([]glyph.ID{first}, input...)
 		at := func(idx int) (glyph.ID, bool) {
 			switch {
 			case idx == 0:
@@ -122,6 +207,9 @@ func GenNested(t *rapid.T, opt NestedOptions) *Nested {
 			}
 			idx := rapid.IntRange(0, hiSeq).Draw(t, "seqIdx")
 			li := -1
+			if k == 0 && inherit >= 0 && rapid.IntRange(0, 3).Draw(t, "callInherited") != 0 {
+				idx, li = 0, inherit
+			}
 			if gl, ok := at(idx); ok && res.Coherent && rapid.IntRange(0, 3).Draw(t, "fitting") != 0 {
 				var cand []int
 				for j := lo; j <= hi && j < total; j++ {
@@ -145,16 +233,17 @@ func GenNested(t *rapid.T, opt NestedOptions) *Nested {
 		var st gtab.Subtable
 		tp := uint16(5)
 		// class tables for the class-based formats: base glyph g has class g
-		classes := classdef.Table{1: 1, 2: 2, 3: 3}
+		// (the marks 5 and 6 have classes 4 and 5)
+		classes := classdef.Table{1: 1, 2: 2, 3: 3, 5: 4, 6: 5}
 		cls := func(gg []glyph.ID) []uint16 {
 			res := make([]uint16, len(gg))
 			for k, x := range gg {
-				res[k] = uint16(x)
+				res[k] = classes[x]
 			}
 			return res
 		}
 		var back, ahead []glyph.ID
-		format := rapid.IntRange(0, 7).Draw(t, "ctxFormat")
+		format := rapid.SampledFrom([]int{0, 1, 2, 3, 3, 4, 4, 5, 5, 5}).Draw(t, "ctxFormat")
 		if format >= 3 {
 			for k := rapid.IntRange(0, 1).Draw(t, "nBacktrack"); k > 0; k-- {
 				back = append(back, g("backtrack"))
@@ -163,22 +252,81 @@ func GenNested(t *rapid.T, opt NestedOptions) *Nested {
 				ahead = append(ahead, g("lookahead"))
 			}
 		}
+		// an "ignore" rule: a second rule of the same rule set without
+		// actions, standing before or behind the rule proper (the first
+		// matching rule wins, and a match without actions still consumes its
+		// input)
+		var ignIn, ignBack, ignAhead []glyph.ID
+		ignore, ignoreFirst := false, false
+		if (format == 0 || format == 1 || format == 3 || format == 4) && rapid.IntRange(0, 2).Draw(t, "ignoreRule") == 0 {
+			ignore = true
+			ignoreFirst = rapid.IntRange(0, 2).Draw(t, "ignoreRuleFirst") != 0
+			// in coherent mode the glyphs of the ignore rule are mostly the
+			// first glyph of the rule set, so that the positions behind a
+			// match are positions where the rule set applies again
+			gi := func(label string) glyph.ID {
+				if res.Coherent && rapid.IntRange(0, 2).Draw(t, label+"Same") != 0 {
+					return first
+				}
+				return gm(label)
+			}
+			for k := rapid.IntRange(0, 3).Draw(t, "nIgnoreInput"); k > 0; k-- {
+				ignIn = append(ignIn, gi("ignoreInput"))
+			}
+			if format >= 3 {
+				for k := rapid.IntRange(0, 1).Draw(t, "nIgnoreBacktrack"); k > 0; k-- {
+					ignBack = append(ignBack, g("ignoreBacktrack"))
+				}
+				for k := rapid.IntRange(0, 2).Draw(t, "nIgnoreLookahead"); k > 0; k-- {
+					ignAhead = append(ignAhead, gi("ignoreLookahead"))
+				}
+			}
+			res.Ignore = true
+			res.Patterns = append(res.Patterns, append(append(append(append([]glyph.ID{}, ignBack...), first), ignIn...), ignAhead...))
+		}
+		res.Patterns = append(res.Patterns, append(append(append(append([]glyph.ID{}, back...), first), input...), ahead...))
 		switch format {
 		case 0:
-			st = &gtab.SeqContext1{Cov: CovTable([]glyph.ID{first}), Rules: [][]*gtab.SeqRule{{{Input: input, Actions: actions}}}}
+			rr := []*gtab.SeqRule{{Input: input, Actions: actions}}
+			if ignore && ignoreFirst {
+				rr = []*gtab.SeqRule{{Input: ignIn}, rr[0]}
+			} else if ignore {
+				rr = append(rr, &gtab.SeqRule{Input: ignIn})
+			}
+			st = &gtab.SeqContext1{Cov: CovTable([]glyph.ID{first}), Rules: [][]*gtab.SeqRule{rr}}
 		case 1:
 			rules := make([][]*gtab.ClassSeqRule, 4)
-			rules[first] = []*gtab.ClassSeqRule{{Input: cls(input), Actions: actions}}
+			rr := []*gtab.ClassSeqRule{{Input: cls(input), Actions: actions}}
+			if ignore && ignoreFirst {
+				rr = []*gtab.ClassSeqRule{{Input: cls(ignIn)}, rr[0]}
+			} else if ignore {
+				rr = append(rr, &gtab.ClassSeqRule{Input: cls(ignIn)})
+			}
+			rules[first] = rr
 			st = &gtab.SeqContext2{Cov: CovTable([]glyph.ID{first}), Input: classes, Rules: rules}
 		case 2:
 			st = &gtab.SeqContext3{Input: sets, Actions: actions}
 		case 3:
 			tp = 6
-			st = &gtab.ChainedSeqContext1{Cov: CovTable([]glyph.ID{first}), Rules: [][]*gtab.ChainedSeqRule{{{Backtrack: back, Input: input, Lookahead: ahead, Actions: actions}}}}
+			rr := []*gtab.ChainedSeqRule{{Backtrack: back, Input: input, Lookahead: ahead, Actions: actions}}
+			ign := &gtab.ChainedSeqRule{Backtrack: ignBack, Input: ignIn, Lookahead: ignAhead}
+			if ignore && ignoreFirst {
+				rr = []*gtab.ChainedSeqRule{ign, rr[0]}
+			} else if ignore {
+				rr = append(rr, ign)
+			}
+			st = &gtab.ChainedSeqContext1{Cov: CovTable([]glyph.ID{first}), Rules: [][]*gtab.ChainedSeqRule{rr}}
 		case 4:
 			tp = 6
 			rules := make([][]*gtab.ChainedClassSeqRule, 4)
-			rules[first] = []*gtab.ChainedClassSeqRule{{Backtrack: cls(back), Input: cls(input), Lookahead: cls(ahead), Actions: actions}}
+			rr := []*gtab.ChainedClassSeqRule{{Backtrack: cls(back), Input: cls(input), Lookahead: cls(ahead), Actions: actions}}
+			ign := &gtab.ChainedClassSeqRule{Backtrack: cls(ignBack), Input: cls(ignIn), Lookahead: cls(ignAhead)}
+			if ignore && ignoreFirst {
+				rr = []*gtab.ChainedClassSeqRule{ign, rr[0]}
+			} else if ignore {
+				rr = append(rr, ign)
+			}
+			rules[first] = rr
 			st = &gtab.ChainedSeqContext2{Cov: CovTable([]glyph.ID{first}), Backtrack: classes, Input: classes, Lookahead: classes, Rules: rules}
 		default:
 			// backtrack and lookahead reach beyond the glyphs of the rule's own
@@ -200,7 +348,7 @@ func GenNested(t *rapid.T, opt NestedOptions) *Nested {
 			}
 			st = ch
 		}
-		ll[i] = &gtab.LookupTable{Meta: meta(tp, "ctxFlags"), Subtables: []gtab.Subtable{st}}
+		ll[i] = &gtab.LookupTable{Meta: &gtab.LookupMetaInfo{LookupType: tp, LookupFlags: ctxFlags.f, MarkFilteringSet: ctxFlags.mfs}, Subtables: []gtab.Subtable{st}}
 	}
 	res.List = ll
 	return res
